@@ -36,6 +36,7 @@ def run(check: Check, repo: Repo, tier: str) -> None:
     D.extend_build_agree(check, repo)
     D.oneof_definition_only(check, repo)
     D.root_overwrite(check, repo)
+    D.change_flag(check, repo)
     D.cross_schema_identity(check, repo)
     G.zip_filter(check, [repo.mod(mn) for mn in MODS] + [repo.mod("utilities.find_schema_changes")])
     G.arg_name_match(check, repo, funcs)
@@ -48,6 +49,12 @@ def run(check: Check, repo: Repo, tier: str) -> None:
     for c in walk_body(es):
         if isinstance(c, _ast.Call) and call_name(c) == "isinstance" and len(c.args) == 2 and unparse(c.args[0]) == "def_":
             tested |= {x.id for x in _ast.walk(c.args[1]) if isinstance(x, _ast.Name)}
+        elif isinstance(c, _ast.Match) and unparse(c.subject) == "def_":
+            # the same dispatch written as `match def_: case XNode(): ...`
+            for case in c.cases:
+                for pat in _ast.walk(case.pattern):
+                    if isinstance(pat, _ast.MatchClass):
+                        tested |= {x.id for x in _ast.walk(pat.cls) if isinstance(x, _ast.Name)}
     for cls in ("SchemaDefinitionNode", "SchemaExtensionNode", "DirectiveDefinitionNode", "DirectiveExtensionNode",
                 "TypeDefinitionNode", "TypeExtensionNode"):
         check.ob("DISPATCH-EXH", es, f"extend_schema_args: isinstance(def_, {cls})", cls in tested,
